@@ -7,6 +7,7 @@ import (
 	"errors"
 	"fmt"
 	"io"
+	"time"
 
 	"filippo.io/age"
 	"filippo.io/age/agessh"
@@ -532,7 +533,18 @@ func (e C19) Execute(plan interface{}, c *core.Ctx) *core.Verdict {
 		// run
 		answer = cl.Answer
 		before := prompts
-		res := lib.Decrypt(seam.NewSource(img, seam.Delivery{Mode: "whole"}, nil, nil).Reader(), false, []age.Identity{id}, lib.ReadSched{Mode: "all"}, nil)
+		// (a call takes milliseconds, a second with the 16-round key file: one that has not returned after 30 s waits
+		// for something an earlier call left behind)
+		var res *lib.DecResult
+		done := make(chan *lib.DecResult, 1)
+		go func() {
+			done <- lib.Decrypt(seam.NewSource(img, seam.Delivery{Mode: "whole"}, nil, nil).Reader(), false, []age.Identity{id}, lib.ReadSched{Mode: "all"}, nil)
+		}()
+		select {
+		case res = <-done:
+		case <-time.After(30 * time.Second):
+			return core.Fail("C19.hang", "call %d of history (identity %s declared A, key file holds %s, stanzas %v, answer %s) has not returned after 30 s; earlier calls: %s", ci, p.Type, p.Holds, cl.Stanzas, cl.Answer, skeleton)
+		}
 		got := prompts - before
 		// as long as no key has been validated, what came before leaves no trace: a NEW identity value over the same key
 		// file, asked the same way, must end in the very same error (or the same success), word for word
